@@ -11,7 +11,81 @@ ASSUMPTIONS = ["theorems are about the Lean translation of estimator.pyx; the co
 
 
 def correspondence(ctx):
-    return kernels.kernel_correspondence(ctx, VKINDS, ctx.scale(25, 120), scheds=("seq", "mix"), big=not ctx.quick)
+    out = kernels.kernel_correspondence(ctx, VKINDS, ctx.scale(25, 120), scheds=("seq", "mix"), big=not ctx.quick)
+    glue = axis_glue_correspondence(ctx, ctx.scale(150, 1200))
+    out["evaluations"] += glue["evaluations"]
+    out["distinct_nontrivial"] += glue["distinct_nontrivial"]
+    out["disagreements"] = (glue["disagreements"] + out["disagreements"])[:10]
+    out["distribution"] = dict(out.get("distribution", {}), **glue["distribution"])
+    out["rule"] += "; glue of vario_estimate_axis: the (field, mask) handed to the structured / masked kernel for random grids, axes, masks, NaNs " \
+                   "and sentinels (int / float zero, -0.0, 1, -9999, 7.5, nan, values inside the isclose band) compared with " \
+                   "Model.Vario.axisMissing cell by cell (exact); distinct = distinct (sentinel kind, input kind, kernel chosen)"
+    return out
+
+
+def axis_glue_correspondence(ctx, n):
+    """tie B for the missing-value rule of vario_estimate_axis: what the glue hands to the kernels vs Model.Vario.axisMissing"""
+    import gstools as gs
+    from gstools.variogram import variogram as V
+    from proto import fbits
+    rng = np.random.RandomState(ctx.seed + 8800)
+    store = []
+    o1, o2 = V._structured, V._ma_structured
+
+    def w1(field, *a, **k):
+        store.append(("structured", np.array(field), None))
+        return o1(field, *a, **k)
+
+    def w2(field, mask, *a, **k):
+        store.append(("ma_structured", np.array(np.ma.getdata(field)), np.array(mask, dtype=bool)))
+        return o2(field, mask, *a, **k)
+    ops, meta, dist = [], [], {}
+    sentinels = [0, 0.0, -0.0, 1, 1.0, -9999, 7.5, float("nan"), 1e-9, 1.00000001, np.int64(0), np.float32(7.5), 2.0 + 1e-5]
+    V._structured, V._ma_structured = w1, w2
+    try:
+        for t in range(n):
+            v = sentinels[t % len(sentinels)]
+            nd = int(rng.randint(1, 4))
+            shp = tuple(int(x) for x in rng.randint(1, 6, size=nd))
+            data = rng.choice([0.0, 0.0, -0.0, 0.25, 1.0, 1.0, -1.0, 2.0, 7.5, -9999.0, 5e-9, 1.000001], size=shp)
+            kind = str(rng.choice(["plain", "masked", "nan", "masked+nan"]))
+            if "nan" in kind:
+                data[rng.rand(*shp) < 0.2] = np.nan
+            m1 = np.zeros(shp, bool)
+            arg = data
+            if "masked" in kind:
+                m1 = rng.rand(*shp) < 0.25
+                arg = np.ma.array(data, mask=m1)
+            ax = int(rng.randint(0, nd))
+            del store[:]
+            try:
+                gs.vario_estimate_axis(arg, direction=ax, estimator=str(rng.choice(["matheron", "cressie"])), no_data=v)
+            except Exception as ex:
+                dist["axis-glue:rejected:" + type(ex).__name__] = dist.get("axis-glue:rejected:" + type(ex).__name__, 0) + 1
+                continue
+            which, cf, cm = store[0]
+            key = f"axis-glue/no_data={v!r}/{kind}/{which}"
+            dist[key] = dist.get(key, 0) + 1
+            ops.append(dict(op="vario_axis_missing", f=fbits(data.ravel()), mask=[int(b) for b in m1.ravel()], no_data=fbits([float(v)])[0]))
+            meta.append((key, shp, ax, data, cf, cm))
+    finally:
+        V._structured, V._ma_structured = o1, o2
+    res = run_driver(ops)
+    dis, distinct = [], set()
+    for o, (key, shp, ax, data, cf, cm), r in zip(ops, meta, res):
+        if isinstance(r, dict) and "error" in r:
+            dis.append({"what": "driver error " + r["error"], "op": o["op"]})
+            continue
+        distinct.add(key)
+        model = np.array(r, dtype=bool).reshape(shp).swapaxes(0, ax).reshape(shp[ax], -1)
+        real = np.zeros_like(model) if cm is None else cm
+        want_f = data.swapaxes(0, ax).reshape(shp[ax], -1)
+        ok_f = cf.shape == want_f.shape and np.array_equal(cf[~model], want_f[~model], equal_nan=True)
+        if real.shape != model.shape or not np.array_equal(real, model) or not ok_f:
+            dis.append({"what": "vario_estimate_axis glue: the missing-cell mask / values handed to the kernel differ from the model "
+                                "(missing = masked or isnan(cell) for a NaN sentinel, masked or isclose(cell, no_data) otherwise)",
+                        "key": key, "field": data.tolist(), "real_mask": real.tolist(), "model_mask": model.tolist()})
+    return {"evaluations": len(ops), "distinct_nontrivial": len(distinct), "disagreements": dis[:5], "distribution": dist}
 
 
 def close(a, b, tol=1e-10):
@@ -129,6 +203,215 @@ def api_search(ctx, n):
             viol.append({"key": "api:axis", "what": "vario_estimate_axis differs from pair enumeration",
                          "case": dict(field=np.asarray(arg, dtype=float).tolist(), axis=ax, kind=str(kind), estimator=est),
                          "got": np.asarray(g).tolist(), "want": rg.tolist()})
+    return ev, viol
+
+
+def _edges_near(dist, edges, rel=1e-9):
+    """some pair distance sits within rounding of a bin edge (the half-open test may then be decided either way)"""
+    dist, edges = np.asarray(dist, float), np.asarray(edges, float)
+    if dist.size == 0:
+        return False
+    return bool(np.min(np.abs(dist[:, None] - edges[None, :])) <= rel * max(1.0, float(np.max(np.abs(edges)))))
+
+
+def geo_bins_search(ctx, n):
+    """great-circle estimation in a length unit (geo_scale) x every way of giving the bins: explicit edges (first edge 0 or > 0, uneven
+    widths), bin_edges=None with nothing / bin_no / max_dist / both.  Oracle: brute-force great-circle pair enumeration with distances
+    in that unit (haversine * geo_scale) and the bins the call documents (explicit edges; linspace(0, max_dist, bin_no + 1); Sturges'
+    number of bins up to a third of the great-circle box diameter) — which must also be the bins the returned centres describe."""
+    import gstools as gs
+    rng = np.random.RandomState(ctx.seed + 8008)
+    viol, ev = [], 0
+    scales = [1.0, gs.DEGREE_SCALE, gs.KM_SCALE, 2.5, None]
+    for t in range(n):
+        P = int(rng.randint(4, 22))
+        F = int(rng.randint(1, 3))
+        r = rng.rand()
+        if r < 0.4:      # global
+            ll = np.vstack([rng.uniform(-90, 90, P), rng.uniform(-200, 200, P)])
+        elif r < 0.8:    # regional
+            ll = np.vstack([rng.uniform(-6, 6, P) + rng.uniform(-70, 70), rng.uniform(-9, 9, P) + rng.uniform(-180, 180)])
+        else:            # lattice in degrees (duplicates, equal distances)
+            ll = np.vstack([rng.randint(-3, 4, P) * 10.0, rng.randint(-4, 5, P) * 15.0])
+        f = rng.randint(-8, 9, size=(F, P)) / 4.0
+        if rng.rand() < 0.3:
+            f[rng.rand(F, P) < 0.2] = np.nan
+        est = str(rng.choice(["matheron", "cressie"]))
+        e = est[0]
+        scale = scales[t % len(scales)]
+        if scale is None:
+            scale = float(np.round(rng.uniform(0.05, 900.0), 3))
+        hav = np.array([brute.haversine(ll, i, j) for i in range(P) for j in range(i + 1, P)])
+        dist = hav * scale
+        mode = ["auto", "bin_no", "max_dist", "bin_no+max_dist", "explicit"][(t // len(scales)) % 5]
+        kw, edges_arg, want_edges, doc = {}, None, None, None
+        if "bin_no" in mode:
+            kw["bin_no"] = int(rng.randint(1, 9))
+        if "max_dist" in mode:
+            kw["max_dist"] = float(rng.uniform(0.3, 1.3) * max(hav.max(), 1e-3) * scale)      # in the unit of geo_scale
+        if mode == "explicit":
+            top = max(hav.max(), 1e-3) * float(rng.uniform(0.4, 1.2))
+            w = rng.choice([0.5, 1.0, 1.5], size=int(rng.randint(1, 7)))
+            first = float(rng.choice([0.0, 0.0, 0.1]))
+            rad = first * top + np.concatenate([[0.0], np.cumsum(w)]) / np.sum(w) * top * (1 - first)
+            edges_arg = rad * scale
+            want_edges = edges_arg
+        else:
+            nb_doc = kw.get("bin_no", int(np.ceil(2 * np.log2(P) + 1)))
+            md_doc = kw.get("max_dist", brute.great_circle_box_diameter(ll) * scale / 3.0)
+            doc = np.linspace(0.0, md_doc, nb_doc + 1)
+        gname = {1.0: "radian", gs.DEGREE_SCALE: "degree", gs.KM_SCALE: "km"}.get(scale, "arbitrary")
+        case = dict(stratum="latlon-bins", latlon=ll.tolist(), field=f.tolist(), estimator=est, geo_scale=scale, bins=mode,
+                    bin_edges=None if edges_arg is None else edges_arg.tolist(), **kw)
+        try:
+            cen, g, c = gs.vario_estimate(ll, f if F > 1 else f[0], edges_arg, estimator=est, latlon=True, geo_scale=scale,
+                                          return_counts=True, **kw)
+        except Exception as ex:
+            viol.append({"key": f"api:latlon-bins:{mode}:exception", "what": f"{type(ex).__name__}: {ex}", "case": case})
+            continue
+        ev += 1
+        cen = np.asarray(cen, float)
+        if mode != "explicit":
+            # the bins the centres describe: uniform, zero based
+            nb = len(cen)
+            desc_edges = 2.0 * cen[0] * np.arange(nb + 1) if nb else np.zeros(1)
+            if nb != len(doc) - 1 or not close(cen, 0.5 * (doc[1:] + doc[:-1]), 1e-9):
+                viol.append({"key": f"api:latlon-bins:{mode}:centres",
+                             "what": "lat-lon, bin_edges=None: returned bin centres are not those of the documented standard bins "
+                                     "linspace(0, max_dist or great-circle box diameter / 3 [unit of geo_scale], bin_no or Sturges(points) + 1)",
+                             "case": case, "got": cen.tolist(), "want": (0.5 * (doc[1:] + doc[:-1])).tolist()})
+                want_edges = desc_edges          # still compare the estimate with the bins the call says it used
+            else:
+                want_edges = doc
+        elif not close(cen, 0.5 * (want_edges[1:] + want_edges[:-1]), 1e-12):
+            viol.append({"key": "api:latlon-bins:explicit:centres", "what": "returned bin centres are not the mid-points of the given edges",
+                         "case": case, "got": cen.tolist()})
+        if _edges_near(dist, want_edges):
+            continue
+        rg, rc = brute.unstructured(f, want_edges, ll, e, "h", scale=scale)
+        if not (close(g, rg, 1e-9) and np.array_equal(c, rc)):
+            collapsed = int(np.sum(np.asarray(c)[1:])) == 0 and int(np.sum(rc[1:])) > 0
+            viol.append({"key": f"api:latlon-bins:{mode}:geo_scale={gname}",
+                         "what": "lat-lon vario_estimate with geo_scale: values / pair counts differ from great-circle pair enumeration "
+                                 "(distances in the unit of geo_scale) over the bins the call returns"
+                                 + (" — every pair was counted in the first bin" if collapsed else ""),
+                         "case": case, "got": [np.asarray(g).tolist(), np.asarray(c).tolist()], "want": [rg.tolist(), rc.tolist()]})
+    return ev, viol
+
+
+SENTINELS = [0, 0.0, -0.0, 1, 1.0, -9999, -9999.0, 7.5, float("nan"), "np.int64(0)", "np.float32(7.5)", "np.float64(0)", None]
+
+
+def _sentinel(rng, t):
+    s = SENTINELS[t % len(SENTINELS)]
+    if isinstance(s, str):
+        return eval(s, {"np": np}), s
+    return s, repr(s)
+
+
+def nodata_search(ctx, n):
+    """missing-value sentinels: vario_estimate_axis(field, no_data=v) and vario_estimate(pos, field, no_data=v) for v in int / float /
+    numpy-scalar zeros, -0.0, 1, -9999, 7.5, nan (and None: rejected or 'no sentinel') on data that CONTAIN the sentinel, natural
+    zeros and ones, on plain / masked / NaN-containing input, every axis, both estimators, against pair enumeration over the
+    non-missing cells.  Missing = masked or equal to the sentinel (NaN cells when the sentinel is NaN; for vario_estimate NaN is
+    always missing); a NaN cell that is not missing takes part in the arithmetic like any value (its lags are NaN)."""
+    import gstools as gs
+    rng = np.random.RandomState(ctx.seed + 8080)
+    viol, ev = [], 0
+    for t in range(n):
+        v, vname = _sentinel(rng, t)
+        est = str(rng.choice(["matheron", "cressie"]))
+        e = est[0]
+        v_is_nan = v is not None and bool(np.isnan(v))
+        # ------------------------------------------------------------ along-axis estimator
+        nd = int(rng.randint(1, 4))
+        shp = tuple(int(x) for x in rng.randint(1, 7, size=nd))
+        fld = rng.choice([0.0, 0.0, -0.0, 0.25, 0.5, 1.0, 1.0, -1.0, 1.75, 2.0, -2.5, 3.0], size=shp)
+        holes = rng.rand(*shp) < 0.25
+        kind = ["plain", "masked", "nan", "masked+nan", "plain"][(t // len(SENTINELS)) % 5]     # every sentinel x every input kind
+        data = fld.copy()
+        if v is not None and not v_is_nan:
+            data[holes] = float(v)
+        elif v_is_nan:
+            data[holes] = np.nan
+        nanc = np.zeros(shp, bool)
+        if "nan" in kind:
+            nanc = rng.rand(*shp) < 0.15
+            data[nanc] = np.nan
+        m1 = np.zeros(shp, bool)
+        arg = data
+        if "masked" in kind:
+            m1 = rng.rand(*shp) < 0.2
+            under = data.copy()
+            under[m1] = float(rng.choice([-9999.0, 0.0, 50.0, 1.0]))     # junk (incl. sentinel-like values) under the mask
+            arg = np.ma.array(under, mask=m1)
+        if v is None or v_is_nan:
+            missing = m1 | np.isnan(data)
+        else:
+            missing = m1 | (data == float(v))           # data are dyadic: equal to the sentinel or far from it
+        for ax in range(nd):
+            case = dict(stratum="axis-no_data", field=np.asarray(data, float).tolist(), mask=m1.tolist() if m1.any() else None,
+                        shape=list(shp), axis=ax, kind=kind, estimator=est, no_data=vname)
+            f2 = np.where(missing, 0.0, data).swapaxes(0, ax).reshape(shp[ax], -1)
+            mm = missing.swapaxes(0, ax).reshape(shp[ax], -1)
+            rg = brute.axis(f2, e, mm if mm.any() else None)
+            try:
+                g = gs.vario_estimate_axis(arg, direction=ax if rng.rand() < 0.7 or ax > 2 else "xyz"[ax], estimator=est, no_data=v)
+            except Exception as ex:
+                ev += 1
+                if v is None and isinstance(ex, (TypeError, ValueError)):
+                    continue           # None is not a documented sentinel: rejecting it is fine
+                viol.append({"key": "api:axis:no_data:exception", "what": f"{type(ex).__name__}: {ex}", "case": case})
+                continue
+            ev += 1
+            if not close(g, rg):
+                zero_like = v is not None and not v_is_nan and float(v) == 0.0
+                viol.append({"key": "api:axis:no_data=" + ("zero" if zero_like else "nan" if v_is_nan else "None" if v is None else "nonzero"),
+                             "what": "vario_estimate_axis(no_data=v) differs from pair enumeration over the cells that are neither masked "
+                                     "nor equal to the sentinel", "case": case, "got": np.asarray(g).tolist(), "want": rg.tolist()})
+        if isinstance(arg, np.ma.MaskedArray) and not (np.array_equal(np.ma.getmaskarray(arg), m1)):
+            viol.append({"key": "api:axis:no_data:caller-mask-modified", "what": "the caller's masked array got a different mask", "case": case})
+        # ------------------------------------------------------------ unstructured estimator
+        if v is None:
+            continue
+        dim = int(rng.randint(1, 4))
+        P = int(rng.randint(3, 14))
+        F = int(rng.randint(1, 3))
+        pos = gen_points(rng, dim, P)
+        fu = rng.choice([0.0, 0.0, -0.0, 0.25, 0.5, 1.0, 1.0, -1.0, 1.75, 2.0, -2.5, 3.0], size=(F, P))
+        hol = rng.rand(F, P) < 0.25
+        fu[hol] = np.nan if v_is_nan else float(v)
+        ukind = ["masked", "nan", "masked+nan", "plain", "plain"][(t // len(SENTINELS)) % 5]
+        if "nan" in ukind:
+            fu[rng.rand(F, P) < 0.15] = np.nan
+        mu = np.zeros((F, P), bool)
+        uarg = fu
+        if "masked" in ukind:
+            mu = rng.rand(F, P) < 0.2
+            under = fu.copy(); under[mu] = float(rng.choice([-9999.0, 0.0, 50.0]))
+            uarg = np.ma.array(under, mask=mu)
+        ref = fu.copy()
+        ref[mu] = np.nan
+        if not v_is_nan:
+            ref[fu == float(v)] = np.nan
+        bins = float(rng.choice([0.0, 0.5])) + np.concatenate([[0], np.cumsum(rng.choice([0.5, 1.0, 1.5], size=int(rng.randint(1, 5))))])
+        case = dict(stratum="unstructured-no_data", pos=pos.tolist(), field=fu.tolist(), mask=mu.tolist() if mu.any() else None,
+                    bins=bins.tolist(), estimator=est, no_data=vname, kind=ukind)
+        try:
+            _, g, c = gs.vario_estimate(pos, uarg if F > 1 else uarg[0], bins, estimator=est, no_data=v, return_counts=True)
+        except Exception as ex:
+            viol.append({"key": "api:isotropic:no_data:exception", "what": f"{type(ex).__name__}: {ex}", "case": case})
+            continue
+        ev += 1
+        if mu.all(axis=0).all():
+            continue      # everything masked: the documented empty result
+        rg, rc = brute.unstructured(ref, bins, pos, e, "e")
+        if not (close(g, rg) and np.array_equal(c, rc)):
+            zero_like = not v_is_nan and float(v) == 0.0
+            viol.append({"key": "api:isotropic:no_data=" + ("zero" if zero_like else "nan" if v_is_nan else "nonzero"),
+                         "what": "vario_estimate(no_data=v) differs from pair enumeration over the values that are neither masked, NaN "
+                                 "nor equal to the sentinel", "case": case,
+                         "got": [np.asarray(g).tolist(), np.asarray(c).tolist()], "want": [rg.tolist(), rc.tolist()]})
     return ev, viol
 
 
@@ -378,11 +661,22 @@ def search(ctx, deep=False):
     ev3, v3 = strata_search(ctx, max(36, n // 2))
     ev4, v4 = boundary_search(ctx, max(28, n // 3))
     ev3, v3 = ev3 + ev4, v3 + v4
+    ev6, v6 = geo_bins_search(ctx, max(100, n // 2))
+    ev7, v7 = nodata_search(ctx, max(130, n // 2))
+    ev3, v3 = ev3 + ev6 + ev7, v3 + v6 + v7
     import threadcfg
     ev5, v5 = threadcfg.api_thread_sweep(ctx, ("vario", "vario-dir", "vario-axis"), ctx.scale(5, 40))
     ev3, v3 = ev3 + ev5, v3 + v5
     ev1, v1 = ev0 + ev1 + ev3, v0 + v3 + v1
     ev2, v2 = model_search(ctx, max(10, n // 4))
-    return {"evaluations": ev1 + ev2, "violations": (v1 + v2)[:8],
+    # at most two reports per key, so that one frequent finding does not crowd out the others
+    seen, out = {}, []
+    for v in v1 + v2:
+        seen[v["key"]] = seen.get(v["key"], 0) + 1
+        if seen[v["key"]] <= 2:
+            out.append(v)
+    return {"evaluations": ev1 + ev2, "violations": out[:10],
             "summary": f"{ev1} calls of vario_estimate / vario_estimate_axis (incl. {ev3} in the targeted strata: overlapping direction cones with random signs, directions given as ISO angles incl. several 3-D directions at once, "
-                       f"stacks of masked fields with different masks, exact boundaries of the direction test on lattices) and {ev2} runs of the Lean translation of estimator.pyx against brute-force pair enumeration"}
+                       f"stacks of masked fields with different masks, exact boundaries of the direction test on lattices, great-circle estimation in four length units x "
+                       f"explicit / automatic / bin_no / max_dist bins against enumeration with distances in that unit, missing-value sentinels "
+                       f"(int / float / numpy zeros, -0.0, 1, -9999, 7.5, nan, None) of vario_estimate_axis and vario_estimate on plain / masked / NaN-containing data) and {ev2} runs of the Lean translation of estimator.pyx against brute-force pair enumeration"}
